@@ -1,0 +1,194 @@
+// Copyright ©2026 The Gonum Authors. All rights reserved.
+// Use of this source code is governed by a BSD-style
+// license that can be found in the LICENSE file.
+
+//go:build verif
+
+package floats
+
+// Machine-checked contracts for the slice helpers of this package
+// (verification hook, build tag verif; this file contains comments only).
+// The contract language and the checker are described in /verif/DESIGN.md.
+//
+// valid is the documented argument contract of the function (written from
+// its doc comment, not from its code); a function with "panics iff !valid,
+// before-writes" must panic explicitly, before any store, exactly when valid
+// is false, and must not fault otherwise. writes is the set of cells the
+// function may store to; everything else is unchanged.
+//
+// Not covered (outside the checker's subset): Count, EqualFunc, Find (call
+// through a function value), EqualLengths (slice of slices), Reverse
+// (slices.Reverse), Argsort, ArgsortStable (sort.Sort / sort.Stable), Within
+// (sort.Float64sAreSorted).
+//
+// Element-wise value clauses are stated only for the functions that are
+// plain loops (Mul, MulTo); the others delegate to internal/asm/f64 kernels
+// whose contracts say nothing about the values stored.
+
+// feq: IEEE equality extended to NaN (a value clause "x == e" alone is false
+// whenever e is NaN).
+//@ spec feq(a float64, b float64) bool = (isNaN(a) && isNaN(b)) || a == b
+
+// ---- element-wise updates of dst ----------------------------------------------
+
+//@ func Mul props: C07(safety) C08
+//@ floats: ieee
+//@ valid len(dst) == len(s)
+//@ panics iff !valid, before-writes
+//@ writes dst[k] for k in 0..len(dst)
+//@ ensures disjoint(dst, s) ==> forall(k, 0, len(dst), feq(dst[k], old(dst[k]) * s[k]))
+//@ loop 1: invariant disjoint(dst, s) ==> forall(k, 0, it, feq(dst[k], old(dst[k]) * s[k]))
+
+//@ func Add Sub Div props: C07(safety) C08
+//@ valid len(dst) == len(s)
+//@ panics iff !valid, before-writes
+//@ writes dst[k] for k in 0..len(dst)
+
+//@ func AddScaled props: C07(safety) C08
+//@ valid len(dst) == len(s)
+//@ panics iff !valid, before-writes
+//@ writes dst[k] for k in 0..len(dst)
+
+//@ func AddConst Scale props: C07(safety) C08
+//@ writes dst[k] for k in 0..len(dst)
+
+// ---- dst = f(s, t) ------------------------------------------------------------
+
+//@ func AddTo SubTo DivTo props: C07(safety) C08
+//@ valid len(s) == len(t) && len(dst) == len(s)
+//@ panics iff !valid, before-writes
+//@ writes dst[k] for k in 0..len(dst)
+//@ ensures sameSlice(result, dst)
+
+//@ func MulTo props: C07(safety) C08
+//@ floats: ieee
+//@ valid len(s) == len(t) && len(dst) == len(s)
+//@ panics iff !valid, before-writes
+//@ writes dst[k] for k in 0..len(dst)
+//@ ensures sameSlice(result, dst)
+//@ ensures disjoint(dst, s) && disjoint(dst, t) ==> forall(k, 0, len(dst), feq(dst[k], t[k] * s[k]))
+//@ loop 1: invariant disjoint(dst, s) && disjoint(dst, t) ==> forall(k, 0, it, feq(dst[k], t[k] * s[k]))
+
+//@ func AddScaledTo props: C07(safety) C08
+//@ valid len(s) == len(y) && len(dst) == len(y)
+//@ panics iff !valid, before-writes
+//@ writes dst[k] for k in 0..len(dst)
+//@ ensures sameSlice(result, dst)
+
+//@ func ScaleTo CumProd CumSum props: C07(safety) C08
+//@ valid len(dst) == len(s)
+//@ panics iff !valid, before-writes
+//@ writes dst[k] for k in 0..len(dst)
+//@ ensures sameSlice(result, dst)
+
+// ---- reductions ---------------------------------------------------------------
+
+//@ func Dot props: C07(safety) C08
+//@ valid len(s1) == len(s2)
+//@ panics iff !valid, before-writes
+//@ writes nothing
+
+//@ func Distance props: C07(safety) C08
+//@ valid len(s) == len(t)
+//@ panics iff !valid, before-writes
+//@ writes nothing
+
+//@ func Norm Prod Sum SumCompensated props: C07(safety) C08
+//@ writes nothing
+
+// ---- index and search helpers -------------------------------------------------
+
+//@ func MaxIdx props: C07(safety) C08
+//@ floats: ieee
+//@ valid len(s) > 0
+//@ panics iff !valid, before-writes
+//@ writes nothing
+//@ ensures 0 <= result && result < len(s)
+//@ ensures forall(k, 0, len(s), isNaN(s[k]) || s[k] <= s[result])
+//@ ensures forall(k, 0, result, isNaN(s[k]) || s[k] < s[result])
+//@ loop 1: invariant isNaN(max) ==> forall(k, 0, it, isNaN(s[k]))
+//@ invariant !isNaN(max) ==> (ind < it && max == s[ind])
+//@ invariant forall(k, 0, it, isNaN(s[k]) || s[k] <= max)
+//@ invariant forall(k, 0, ind, isNaN(s[k]) || s[k] < max)
+
+//@ func MinIdx props: C07(safety) C08
+//@ floats: ieee
+//@ valid len(s) > 0
+//@ panics iff !valid, before-writes
+//@ writes nothing
+//@ ensures 0 <= result && result < len(s)
+//@ ensures forall(k, 0, len(s), isNaN(s[k]) || s[k] >= s[result])
+//@ ensures forall(k, 0, result, isNaN(s[k]) || s[k] > s[result])
+//@ loop 1: invariant isNaN(min) ==> forall(k, 0, it, isNaN(s[k]))
+//@ invariant !isNaN(min) ==> (ind < it && min == s[ind])
+//@ invariant forall(k, 0, it, isNaN(s[k]) || s[k] >= min)
+//@ invariant forall(k, 0, ind, isNaN(s[k]) || s[k] > min)
+
+//@ func Max Min LogSumExp props: C07(safety) C08
+//@ option delegate-panics
+//@ valid len(s) > 0
+//@ panics iff !valid, before-writes
+//@ writes nothing
+
+//@ func NearestIdx props: C07(safety) C08
+//@ floats: ieee
+//@ valid len(s) > 0
+//@ panics iff !valid, before-writes
+//@ writes nothing
+//@ ensures 0 <= result && result < len(s)
+//@ ensures isNaN(v) ==> result == 0
+//@ ensures isInf(v) && v > 0 ==> forall(k, 0, len(s), isNaN(s[k]) || s[k] <= s[result])
+//@ ensures isInf(v) && v < 0 ==> forall(k, 0, len(s), isNaN(s[k]) || s[k] >= s[result])
+//@ ensures !isNaN(v) && !isInf(v) ==> forall(k, 0, len(s), isNaN(abs(v - s[k])) || abs(v - s[result]) <= abs(v - s[k]))
+//@ ensures !isNaN(v) && !isInf(v) ==> forall(k, 0, result, isNaN(abs(v - s[k])) || abs(v - s[result]) < abs(v - s[k]))
+//@ loop 1: invariant isNaN(dist) ==> forall(k, 0, it, isNaN(abs(v - s[k])))
+//@ invariant !isNaN(dist) ==> (ind < it && dist == abs(v - s[ind]))
+//@ invariant forall(k, 0, it, isNaN(abs(v - s[k])) || dist <= abs(v - s[k]))
+//@ invariant forall(k, 0, ind, isNaN(abs(v - s[k])) || dist < abs(v - s[k]))
+
+//@ func HasNaN props: C07(safety) C08
+//@ writes nothing
+//@ ensures result == exists(k, 0, len(s), isNaN(s[k]))
+//@ loop 1: invariant forall(k, 0, it, !isNaN(s[k]))
+
+//@ func Equal props: C07(safety) C08
+//@ floats: ieee
+//@ writes nothing
+//@ ensures result == (len(s1) == len(s2) && forall(k, 0, len(s1), s1[k] == s2[k]))
+//@ loop 1: invariant forall(k, 0, it, s1[k] == s2[k])
+
+//@ func Same props: C07(safety) C08
+//@ floats: ieee
+//@ writes nothing
+//@ ensures result == (len(s) == len(t) && forall(k, 0, len(s), s[k] == t[k] || (isNaN(s[k]) && isNaN(t[k]))))
+//@ loop 1: invariant forall(k, 0, it, s[k] == t[k] || (isNaN(s[k]) && isNaN(t[k])))
+
+//@ func EqualApprox props: C07(safety) C08
+//@ writes nothing
+//@ ensures len(s1) != len(s2) ==> !result
+
+//@ func Span props: C07(safety) C08
+//@ valid len(dst) >= 2
+//@ panics iff !valid, before-writes
+//@ writes dst[k] for k in 0..len(dst)
+//@ ensures sameSlice(result, dst)
+
+//@ func LogSpan props: C07(safety) C08
+//@ option delegate-panics
+//@ valid len(dst) >= 2
+//@ panics iff !valid, before-writes
+//@ writes dst[k] for k in 0..len(dst)
+//@ ensures sameSlice(result, dst)
+
+// NearestIdxForSpan: the documented result is an index of a length-n vector,
+// i.e. "ensures 0 <= result && result < n". That clause is NOT stated here
+// because it does not hold (finding, reproduced): when u-l overflows the final
+// expression int((float64(n)-1)/(u-l)*(v-l) + 0.5) converts a NaN, e.g.
+// NearestIdxForSpan(5, -1e308, 1e308, 9e307) == math.MinInt64 on amd64.
+// Only the panic behaviour and the frame are claimed.
+
+//@ func NearestIdxForSpan props: C07(safety) C08
+//@ floats: ieee
+//@ valid n >= 2
+//@ panics iff !valid, before-writes
+//@ writes nothing
